@@ -20,7 +20,7 @@
   the three user-name notations, every nonce table, clock value, binding option and application mask.
   No unforgeability claim is made: the statements say "equals the RFC computation".
 -/
-import Mhd.Proofs.DauthReplay
+import Mhd.Proofs.DauthNoPanic
 import Mhd.Proofs.DauthEx
 import Mhd.Props.C16
 
@@ -136,6 +136,93 @@ theorem rendering_independent (cfg : Cfg) (tbl : Mhd.Nonce.Table) (now : Nat) (r
       expectedClass cfg tbl now r call (effTimeout cfg call) (effMaxNc cfg call) (Cred.ofView (view es)) lv := fun _ => rfl
   rw [this]
   exact expectedClass_congr cfg tbl now r call _ _ _ _ _ hs' hs hl' hl
+
+/-- The hypotheses of §1, §2 and §4 hold for *every* header `parse_dauth_params` accepts — not only for
+    grammar-conforming renderings: whatever bytes the client sends as Authorization field, if
+    `MHD_get_rq_dauth_params_` delivers parameters `d` then every quoted parameter unquotes, the qop constant
+    is that of the stored qop parameter and lies in its range. -/
+theorem parser_guarantees (r : Req) (d : DAuth) (h : getParams r = .ok (some d)) :
+    WQ d ∧ QopParsed d ∧ QopRange (semOf d) :=
+  getParams_props r d h
+
+/-- Hence, for every request whatsoever (any header list, any bytes in the Authorization field) and every
+    API-conforming call: `MHD_DAUTH_OK` iff the header parses to parameters whose meaning is RFC-valid
+    within the size limits — "every failing case is reported with a failure class and never as success". -/
+theorem digest_check_ok_iff_any_request (cfg : Cfg) (tbl : Mhd.Nonce.Table) (now : Nat) (r : Req) (call : Call)
+    (hcall : CallOk call) :
+    (digestCheck cfg tbl now r call).2 = .ok ↔
+      ∃ d, getParams r = .ok (some d) ∧ ∃ a nci nonce t, WithinLimits a call (semOf d) (lenView d) ∧
+        RFCValid cfg tbl now r call (effTimeout cfg call) (effMaxNc cfg call) (semOf d) a nci nonce t := by
+  cases hp : getParams r with
+  | error e =>
+    have : (digestCheck cfg tbl now r call).2 = e := by
+      unfold digestCheck CallOk at *
+      cases hs : call.secret with
+      | password pw => simp [checkAll, hp]
+      | userdigest dg => rw [hs] at hcall; simp only at hcall; simp [checkAll, hp, hcall.1, hcall.2]
+    rw [this]
+    constructor
+    · intro he; subst he
+      unfold getParams at hp
+      split at hp
+      · cases hp
+      · split at hp <;> cases hp
+    · rintro ⟨d, hd, _⟩; cases hd
+  | ok p =>
+    rw [digestCheck_eq cfg tbl now r call hcall p hp]
+    cases p with
+    | none =>
+      constructor
+      · intro h; cases h
+      · rintro ⟨d, hd, _⟩; cases hd
+    | some d =>
+      obtain ⟨hwq, hqp, hr⟩ := getParams_props r d hp
+      rw [checkInner_sem _ _ _ _ _ _ _ d hwq hqp]
+      constructor
+      · intro h
+        exact ⟨d, rfl, (expected_ok_iff _ _ _ _ _ _ _ _ _ (lenSem_semOf d hwq) hr).mp h⟩
+      · rintro ⟨d', hd', hv⟩
+        injection hd' with hd'; injection hd' with hd'; subst hd'
+        exact (expected_ok_iff _ _ _ _ _ _ _ _ _ (lenSem_semOf d hwq) hr).mpr hv
+
+/-- A client cannot make the library abort: for every request and every API-conforming call the result is
+    never `MHD_PANIC` (before fix F25 `algorithm=foo` reached `MHD_PANIC ("Wrong 'malgo3' value")`). -/
+theorem no_client_panic (cfg : Cfg) (tbl : Mhd.Nonce.Table) (now : Nat) (r : Req) (call : Call) (hcall : CallOk call) :
+    (digestCheck cfg tbl now r call).2 ≠ .panic := by
+  cases hp : getParams r with
+  | error e =>
+    have : (digestCheck cfg tbl now r call).2 = e := by
+      unfold digestCheck CallOk at *
+      cases hs : call.secret with
+      | password pw => simp [checkAll, hp]
+      | userdigest dg => rw [hs] at hcall; simp only at hcall; simp [checkAll, hp, hcall.1, hcall.2]
+    rw [this]
+    unfold getParams at hp
+    split at hp
+    · cases hp
+    · split at hp <;> cases hp
+      exact fun h => Res.noConfusion h
+  | ok p =>
+    rw [digestCheck_eq cfg tbl now r call hcall p hp]
+    cases p with
+    | none => simp [checkInner]
+    | some d =>
+      obtain ⟨hwq, hqp, _⟩ := getParams_props r d hp
+      rw [checkInner_sem _ _ _ _ _ _ _ d hwq hqp]
+      apply expectedClass_no_panic
+      -- `algo3` of a parsed header is `get_rq_dauth_algo` of the algorithm parameter
+      unfold getParams at hp
+      split at hp
+      · cases hp
+      · split at hp
+        · rename_i d' hpd
+          injection hp with hp; injection hp with hp; subst hp
+          unfold parseDigest at hpd
+          rw [Res.map_eq_ok] at hpd
+          obtain ⟨st, _, rfl⟩ := hpd
+          exact algoOf_range _
+        · cases hp
+        · cases hp
 
 /-! ## 4. Single-field mutations are rejected (corollaries of §2) -/
 
